@@ -1846,8 +1846,11 @@ namespace c07
 
     static double pickT(Rng &r)
     {
-        switch (r.ui(8))
+        switch (r.ui(10))
         {
+            // the end points themselves belong to [0,1]: aliasing, bounds and re-parameterisation are checked there too
+            case 8: return 0.0;
+            case 9: return 1.0;
             case 0: return 0.5;
             case 1:
             {
